@@ -8,10 +8,10 @@ from harness.core import C, S, Some
 ID = "C13"
 RUN_MODULE = "Run.C13"
 EXPLAIN = "explain"
-ALPHA = ["a", "b", ":", "*", ".", "+", "(", ")", "|", "^", "$", "{", "}"]
+ALPHA = ["a", "b", ":", "*", ".", "+", "(", ")", "|", "^", "$", "{", "}", "A", "\n", " ", "-", "#", "~"]     # + upper case (no case folding), newline ('*' spans lines), more characters re.escape treats specially
 KALPHA = [c for c in ALPHA]  # keys may contain a literal '*' too
 RULE = ("key sets (3-9 keys of length 1-3, some written with a TTL that has expired and not been purged) and patterns (length 1-4) over "
-        "the alphabet a b : * . + ( ) | ^ $ { } ; commands scan / get_match / delete_match / @invalidate on Memory directly and through the "
+        "the alphabet a b : * . + ( ) | ^ $ { } A newline space - # ~ ; commands scan / get_match / delete_match / @invalidate on Memory directly and through the "
         "facade, and scan / get_match / delete_match inside a transaction (FAST and LOCKED) with the keys split between store, overlay and "
         "pending deletes. non-trivial: the pattern contains a regular-expression metacharacter or the key set contains an expired entry, "
         "and at least one key matches and one does not")
